@@ -202,3 +202,9 @@ PXSKIP = ("cancel-native", "random")
 add(Scenario("fwd-max1-AAB", _proxy_kw(PROXY, max_connections=1), [c("r1", A + "/1"), c("r2", A + "/2"), c("r3", B + "/3")], world=world_proxy, enc={"proxy_origin": PROXY}, skip=PXSKIP))
 add(Scenario("tun-max1-AAB", _proxy_kw(PROXY, max_connections=1), [c("r1", SA + "/1"), c("r2", SA + "/2"), c("r3", "https://b.test/3")], world=world_proxy, enc={"proxy_origin": PROXY}, skip=PXSKIP))
 add(Scenario("socks-max1-AAB", _proxy_kw(SOCKS, max_connections=1), [c("r1", SA + "/1"), c("r2", A + "/2"), c("r3", SA + "/3")], world=world_socks, enc={"proxy_origin": "socks5://proxy.test:1080"}, skip=PXSKIP))
+
+
+# ---- HTTP/2 negotiated by ALPN (https, http1 and http2 both enabled): the pool GUESSES that a
+# connecting connection will multiplex and the guess comes true ---------------------------------
+add(Scenario("h2-alpn-max1-AAB", dict(max_connections=1, http2=True), [c("r1", SA + "/1"), c("r2", SA + "/2"), c("r3", "https://b.test/3")], world=world_h2, enc={"h2_origins": [0, 1]}, skip=H2SKIP + ("cancel-scope",)))
+add(Scenario("h2-alpn-max2-AAAB", dict(max_connections=2, http2=True), [c("r1", SA + "/1"), c("r2", SA + "/2"), c("r3", SA + "/3"), c("r4", "https://b.test/4")], world=world_h2, enc={"h2_origins": [0, 1]}, skip=H2SKIP + ("cancel-scope",)))
